@@ -10,6 +10,12 @@
 (* Decision: "rrdp" (the updated copy), "rsync", or "none" (no repository: *)
 (* the validation uses what it has stored).                                *)
 (***************************************************************************)
+(* "Current" is a matter of time: the copy carries a best-before time that *)
+(* every successful update renews - a snapshot or delta update, but also a *)
+(* 304 (not_modified, base.rs:884) and a notification with the serial the  *)
+(* copy already has (delta_update with no deltas, base.rs:1066): the       *)
+(* replay runs both after the copy expired and expects the next failed     *)
+(* update to find a current copy.                                          *)
 EXTENDS Naturals
 
 CONSTANT Variant     \* "as_documented" | "mutant" (the policy "new" also falls back from an expired copy)
